@@ -23,19 +23,27 @@ fn gen_range_elem(t: &mut Tape, atoms: &Atoms, ins: &mut Vec<Ins>) -> (usize, (u
 }
 
 /// pattern program: s = concat of elements, r derived from s (often included, sometimes a near miss)
-fn gen_pair(t: &mut Tape) -> (Prog, usize, usize) {
+pub fn gen_pair(t: &mut Tape) -> (Prog, usize, usize) {
     let atoms = Atoms::decode(t, 5);
     let n = atoms.len();
     let mut ins: Vec<Ins> = Vec::new();
     let full = push(&mut ins, Ins::Full);
-    let ns = 1 + t.choose(5);
+    let ns = 1 + t.choose(7);
     let mut s_elems: Vec<usize> = Vec::new();
     let mut r_elems: Vec<usize> = Vec::new();
+    let mut rigid: Vec<(usize, (usize, usize))> = Vec::new();
     for _ in 0..ns {
         match t.weighted(&[6, 4, 1, 2]) {
             0 => {
-                // rigid element: a range in s; in r a sub-range / the same / (near miss) a wider or shifted one
-                let (slot, (i, j)) = gen_range_elem(t, &atoms, &mut ins);
+                // rigid element: a range in s (a third of the time the same range as an earlier rigid
+                // element, so that one occurrence in r can be claimed twice); in r a sub-range / the
+                // same / (near miss) a wider or shifted one
+                let (slot, (i, j)) = if !rigid.is_empty() && t.bool_p(85) {
+                    rigid[t.choose(rigid.len())]
+                } else {
+                    gen_range_elem(t, &atoms, &mut ins)
+                };
+                rigid.push((slot, (i, j)));
                 s_elems.push(slot);
                 let r_slot = match t.weighted(&[5, 4, 2, 1]) {
                     0 => slot,
@@ -57,7 +65,7 @@ fn gen_pair(t: &mut Tape) -> (Prog, usize, usize) {
                     }
                 };
                 // near miss: sometimes drop or duplicate the element in r
-                match t.weighted(&[12, 1, 1]) {
+                match t.weighted(&[10, 2, 1]) {
                     0 => r_elems.push(r_slot),
                     1 => {}
                     _ => {
@@ -110,6 +118,12 @@ fn gen_pair(t: &mut Tape) -> (Prog, usize, usize) {
     }
     let s = push(&mut ins, Ins::ConcatList(s_elems));
     let r = push(&mut ins, Ins::ConcatList(r_elems));
+    // the union of the pair, in either operand order: if r is (wrongly) judged included in s it is dropped here
+    if t.flag() {
+        push(&mut ins, Ins::Union(r, s));
+    } else {
+        push(&mut ins, Ins::Union(s, r));
+    }
     // wrappers that keep inclusions meaningful: complements (swap), unions, intersections
     let extra = t.choose(6);
     let cfg = ProgCfg::default();
